@@ -43,7 +43,9 @@ func (p *Parser) Encode(header *parser.PacketHeader, v any) ([][]byte, error) {
 		return nil, fmt.Errorf("parser/json: invalid argument: %w", errNilArgument)
 	}
 
-	if header.Type == parser.PacketTypeEvent || header.Type == parser.PacketTypeAck {
+	// A header that already carries the binary type (one that went through Encode before) is
+	// treated like the plain one: the attachments are looked up and counted again.
+	if header.Type == parser.PacketTypeEvent || header.Type == parser.PacketTypeAck || header.IsBinary() {
 		if hasBinary(rv) {
 			switch header.Type {
 			case parser.PacketTypeEvent:
@@ -107,11 +109,17 @@ func (p *Parser) encodeString(header *parser.PacketHeader, v any) ([]byte, error
 }
 
 func (p *Parser) encodeBinary(header *parser.PacketHeader, v any) (buffers [][]byte, err error) {
-	numBuffers := 0
-	buffers, err = p.deconstructPacket(reflect.ValueOf(v), &numBuffers)
+	// The placeholders are written into the values themselves so that the JSON encoder finds
+	// them there. Once the payload is encoded (or encoding has failed) the values are put back.
+	d := new(deconstruction)
+	defer d.restore()
+
+	buffers, err = p.deconstructPacket(reflect.ValueOf(v), d)
 	if err != nil {
 		return nil, err
 	}
+
+	numBuffers := d.numBuffers
 
 	if numBuffers != len(buffers) {
 		return nil, errNumBuffers
